@@ -14,14 +14,19 @@ def parseHook? : String → Option HB
 def parseRB? (s : String) : Option RB :=
   match s with
   | "pass" => some .pass
+  | "pass1" => some .pass       -- `NewTokenResult(ResultStatusPass)`: same as `NewTokenResultPass()`
   | "nil" => some .nil
   | "wait" => some .wait
   | "wait0" => some .wait       -- `NewTokenResultShouldWait(0)`: same status, the chain never looks at the duration
+  | "wait1" => some .wait       -- `NewTokenResult(ResultStatusShouldWait)`
   | "panic" => some .panic
   | _ =>
     let st : Option Style :=
       if s.startsWith "bf" then some .fresh else if s.startsWith "bc" then some .ctx
-      else if s.startsWith "bo" then some .own else none
+      else if s.startsWith "bo" then some .own else if s.startsWith "bn" then some .bare
+      else if s.startsWith "bt" then some .typed else if s.startsWith "bb" then some .plain
+      else if s.startsWith "bm" then some .msg else if s.startsWith "br" then some .ctxT
+      else if s.startsWith "bs" then some .ctxM else none
     match st, (s.drop 2).toString.toNat? with
     | some st, some typ => if typ < 256 then some (.block st typ) else none
     | _, _ => none
@@ -31,28 +36,38 @@ def parseHookOpt : List String → Option (Option HB)
   | [h] => (parseHook? h).map some
   | _ => none
 
+def parseNote? : List String → Option NoteB
+  | [] => some .none
+  | ["e"] => some .err
+  | ["k"] => some .pair
+  | ["ek"] => some .both
+  | _ => none
+
 def parseSlot? (tok : String) : Option SlotSpec :=
   match tok.splitOn ":" with
-  | kind :: id :: ord :: beh :: rest =>
-    match id.toNat?, ord.toNat? with
-    | some id, some ord =>
+  | kind :: id :: ord :: behn :: rest =>
+    match id.toNat?, ord.toNat?, behn.splitOn "+" with
+    | some id, some ord, beh :: nt =>
+      match parseNote? nt with
+      | none => none
+      | some note =>
       if ord ≥ 4294967296 then none else
       match kind with
       | "p" =>
         match (match beh with | "ok" => some PB.ok | "panic" => some PB.panic | _ => none), parseHookOpt rest with
-        | some b, some hk => some (.p { id := id, order := ord, beh := b, hook := hk })
+        | some b, some hk => some (.p { id := id, order := ord, beh := b, hook := hk, note := note })
         | _, _ => none
       | "r" =>
         match parseRB? beh, parseHookOpt rest with
-        | some b, some hk => some (.r { id := id, order := ord, beh := b, hook := hk })
+        | some b, some hk => some (.r { id := id, order := ord, beh := b, hook := hk, note := note })
         | _, _ => none
       | "s" =>
         match (match beh with | "ok" => some SB.ok | "pp" => some SB.pPassed | "pb" => some SB.pBlocked
                               | "pc" => some SB.pCompleted | _ => none), rest with
-        | some b, [] => some (.s { id := id, order := ord, beh := b })
+        | some b, [] => some (.s { id := id, order := ord, beh := b, note := note })
         | _, _ => none
       | _ => none
-    | _, _ => none
+    | _, _, _ => none
   | _ => none
 
 def parseSlots? (ts : List String) : Option (List SlotSpec) := ts.mapM parseSlot?
@@ -70,15 +85,21 @@ def parseOp? : List String → Option Op
   | ["ident", e] => some (.ident e)
   | ["blockerr", e] => some (.blockerr e)
   | ["globalorder"] => some .globalorder
+  | ["ctx", e, "err"] => some (.ctxq e false)
+  | ["ctx", e, "pair"] => some (.ctxq e true)
   | _ => none
 
-def showBE (b : BErr) : String := s!"{b.typ} {b.msg} {b.rule} {b.snap}"
+def showON : Option Nat → String
+  | none => "-"
+  | some n => toString n
+
+def showBE (b : BErr) : String := s!"{b.typ} {showON b.msg} {showON b.rule} {showON b.snap}"
 
 def showCall : Call → String
   | .prep id => s!"P{id}"
   | .check id => s!"R{id}"
   | .passed id => s!"S{id}+"
-  | .blocked id (some b) => s!"S{id}-{b.typ}.{b.msg}.{b.rule}.{b.snap}"
+  | .blocked id (some b) => s!"S{id}-{b.typ}.{showON b.msg}.{showON b.rule}.{showON b.snap}"
   | .blocked id none => s!"S{id}-nil"
   | .completed id => s!"S{id}c"
   | .handler id => s!"H{id}"
@@ -112,6 +133,10 @@ def showOut (sn : Seen) : Out → Seen × Option String
     ({ cs := cs, ts := ts }, some s!"ctx {ci} tr {ti}")
   | .berr b => (sn, some (showBE b))
   | .gorder p r s => (sn, some (showNamed p ++ " " ++ showNamed r ++ " " ++ showNamed s))
+  | .cerr .none => (sn, some "-")
+  | .cerr (.slot id) => (sn, some s!"E{id}")
+  | .cerr .panic => (sn, some "panic")
+  | .cpair p => (sn, some (match p with | none => "-" | some id => s!"K{id}"))
 
 def stepModel (st : State × Seen) (ts : List String) (_ : String) : (State × Seen) × Option String :=
   match parseOp? ts with
